@@ -373,7 +373,12 @@ class Queue(Greenlet):
             for reply, group_env in self._split_by_reply(envelope, replies):
                 reply.message += ' (Too many retries)'
                 self._perm_fail(None, group_env, reply)
-            self._remove(id)
+            # Not self._remove(): this may already be running inside the
+            # store pool, and waiting there for a second slot would block
+            # forever once the pool is full.
+            self.store.remove(id)
+            self.queued_ids.discard(id)
+            self.active_ids.discard(id)
             return False
         else:
             when = time.time() + wait
